@@ -1,6 +1,6 @@
 import LA.Drv.Util
 import LA.Model.MsgType
-import LA.Model.Tables
+import LA.Model.TablesCat
 
 /-! line-protocol commands of the Tables family (C20). -/
 namespace LA.Drv.Tables
